@@ -476,6 +476,7 @@ def _root_.Micromap.SetOp.sysLevel : SetOp K Q → Bool
   | .from_iter _ _ => true
   | .sub _ _ => true
   | .serde _ => true
+  | .extend_from _ => true
   | _ => false
 
 /-- the keys the text of a set operation carries. -/
@@ -638,6 +639,7 @@ theorem stepSetOp_cons (hw0 : ∀ u, wu (.v u) = 0) (R : Render K Unit) (other :
     refine ConsAt.bind0 (forgetMap_cons s) (by own_np) (fun o s1 _ => ?_)
     exact ConsAt.pure (by simp [SetOp.inKeys])
   | serde dst => cases hsys
+  | extend_from o => cases hsys
 
 end setops
 
@@ -763,6 +765,166 @@ theorem assignSet_scons {PU : Event K Unit Q → Prop} [EvP PU] {sys : Sys K V Q
         have := sysLive_updSet w sys hdst s.r (sys.w.mergeUnit s'.w)
         rw [created_fromUnit, dropped_fromUnit, wsum_fromUnit]
         simp only [hnew, createdOf_append, droppedOf_append, wsum_append] at heq2 this ⊢
+        omega
+
+
+/-! ### `a.extend(b)` with `b` a set that is moved in: two registers, one world -/
+
+section extendFrom
+variable {K Q : Type} {PU : Event K Unit Q → Prop} [EvP PU] {wu : Obj K Unit → Nat} (F : Env K Unit Q)
+
+/-- the balance between two states of the pair (source register, destination register with the
+    world): nothing is passed in, nothing is handed out — every key of the source ends up stored in
+    the destination, dropped (a duplicate, or the rest of the source when the loop unwinds) or, if a
+    `Drop` unwinds, leaked. -/
+def PBal (PU : Event K Unit Q → Prop) (wu : Obj K Unit → Nat) (rs : Raw K Unit) (sd : St K Unit Q)
+    (x : Raw K Unit × St K Unit Q) : Prop :=
+  ∃ ev lk, WExt PU sd.w x.2.w ev lk ∧
+    live wu rs + live wu sd.r + wsum wu (createdOf ev) =
+      live wu x.1 + live wu x.2.r + wsum wu (droppedOf ev) + wsum wu lk
+
+/-- the loop conserves: exactly when it returns or unwinds by the container's own panic (overflow);
+    nothing is claimed after an injected panic in an armed world (as in `ConsAt`). -/
+def PCons (PU : Event K Unit Q → Prop) (wu : Obj K Unit → Nat) (r : Res (Raw K Unit × St K Unit Q) Unit)
+    (rs : Raw K Unit) (sd : St K Unit Q) : Prop :=
+  match r with
+  | .ok _ x => PBal PU wu rs sd x
+  | .panic c x => (c = .inject ∧ sd.w.inject ≠ none) ∨ PBal PU wu rs sd x
+  | .ub => True
+
+theorem wov_unit (hw0 : ∀ u, wu (.v u) = 0) (a : Option Unit) : wov wu a = 0 := by
+  cases a <;> simp [hw0]
+
+/-- **the loop of `a.extend(b)` conserves objects**, in any world, for any user equality. -/
+theorem extendFromLoop_pcons (hw0 : ∀ u, wu (.v u) = 0) : ∀ (n : Nat) (rs : Raw K Unit) (sd : St K Unit Q),
+    PCons PU wu (extendFromLoop F n rs sd) rs sd
+  | 0, rs, sd => ⟨[], [], WExt.refl _, by simp [createdOf, droppedOf]⟩
+  | n + 1, rs, sd => by
+    have hv : HV F wu := Or.inr hw0
+    have h1 := intoIterNextK_inj (P := PU) (w := wu) F hv .keys ⟨rs, sd.w⟩
+    unfold ConsAt at h1
+    unfold extendFromLoop
+    cases hm : intoIterNextK F .keys ⟨rs, sd.w⟩ with
+    | ub => trivial
+    | panic c s1 =>
+      rw [hm] at h1
+      rcases h1 with hl | ⟨q, hq, _⟩
+      · exact Or.inl hl
+      · cases hq
+    | ok o s1 =>
+      rw [hm] at h1
+      obtain ⟨ev1, lk1, hx1, he1⟩ := h1
+      cases o with
+      | none =>
+        refine ⟨ev1, lk1, hx1, ?_⟩
+        simp only [Option.map_none, Option.getD_none] at he1 ⊢
+        omega
+      | some p =>
+        simp only [Option.map_some, Option.getD_some, wkind] at he1
+        simp only
+        have h2 := insert_cons (P := PU) (w := wu) F hv p.1 () ⟨sd.r, s1.w⟩
+        unfold ConsAt at h2
+        cases hi : insert F p.1 () ⟨sd.r, s1.w⟩ with
+        | ub => trivial
+        | ok a s2 =>
+          rw [hi] at h2
+          obtain ⟨ev2, lk2, hx2, he2⟩ := h2
+          have ha := wov_unit hw0 a
+          have hu := hw0 ()
+          simp only [ha, hu] at he2
+          have ih := extendFromLoop_pcons hw0 n s1.r s2
+          show PCons PU wu (extendFromLoop F n s1.r s2) rs sd
+          generalize extendFromLoop F n s1.r s2 = r at ih
+          have hcomb : ∀ x, PBal PU wu s1.r s2 x → PBal PU wu rs sd x := by
+            intro x ⟨ev3, lk3, hx3, he3⟩
+            refine ⟨ev1 ++ (ev2 ++ ev3), lk1 ++ (lk2 ++ lk3), hx1.trans (hx2.trans hx3), ?_⟩
+            simp only [createdOf_append, droppedOf_append, wsum_append]
+            omega
+          cases r with
+          | ub => trivial
+          | ok u x => exact hcomb x ih
+          | panic c x =>
+            rcases ih with ⟨hc, ha'⟩ | ih
+            · exact Or.inl ⟨hc, fun hn => ha' (hx2.inj (hx1.inj hn))⟩
+            · exact Or.inr (hcomb x ih)
+        | panic c s2 =>
+          rw [hi] at h2
+          simp only
+          have h3 := dropAndRenew_cons (P := PU) (w := wu) F hv ((⟨s1.r, s2.w⟩ : St K Unit Q).setUnw true)
+          unfold ConsAt at h3
+          cases hd : dropAndRenew F ((⟨s1.r, s2.w⟩ : St K Unit Q).setUnw true) with
+          | ub => trivial
+          | panic c' s3 => trivial
+          | ok u s3 =>
+            rw [hd] at h3
+            rcases h2 with ⟨hc, ha'⟩ | ⟨q, hq, ev2, lk2, hx2, he2⟩
+            · exact Or.inl ⟨hc, fun hn => ha' (hx1.inj hn)⟩
+            · cases hq
+              obtain ⟨ev3, lk3, hx3, he3⟩ := h3
+              have hu := hw0 ()
+              simp only [hu, setUnw_r] at he2 he3
+              refine Or.inr ⟨ev1 ++ (ev2 ++ ev3), lk1 ++ (lk2 ++ lk3),
+                hx1.trans (hx2.trans (WExt.through_unw (s' := ⟨s1.r, s2.w⟩) hx3)), ?_⟩
+              simp only [createdOf_append, droppedOf_append, wsum_append]
+              omega
+
+end extendFrom
+
+theorem sysLive_extendFin (w : Obj K V → Nat) (sys : Sys K V Q) {i j : Nat} (hi : i < nRegs) (hj : j < nRegs)
+    (hij : j ≠ i) (rs rd : Raw K Unit) (u : World K Unit Q) :
+    sysLive w (extendFin sys i j rs rd u) + live (wU w) (sys.sets i) + live (wU w) (sys.sets j) =
+      sysLive w sys + live (wU w) rs + live (wU w) rd := by
+  rcases lt_nRegs hi with rfl | rfl <;> rcases lt_nRegs hj with rfl | rfl <;>
+    first | exact absurd rfl hij | (simp [sysLive, extendFin, updReg]; omega)
+
+/-- **`sets[i].extend(sets[j])` conserves objects** at the system level: nothing comes in (the
+    objects are those of the source register, which is one of the registers of `sysLive`), nothing
+    is handed out; every key of the source is stored in the destination, dropped, or leaked by an
+    unwinding `Drop` — in any world, for any user equality, whether the call returns or the
+    destination overflows in the middle. -/
+theorem extendFrom_scons {sys : Sys K V Q} {i j : Nat} (hi : i < nRegs) (hj : j < nRegs) (hij : j ≠ i) :
+    SCons w (extendFrom E sys i j) sys 0 (fun _ => 0) := by
+  have hl := extendFromLoop_pcons (PU := fun _ => True) (wu := wU w) E.toUnit (fun _ => rfl)
+    ((sys.sets j).len + 1) (sys.sets j) ⟨sys.sets i, sys.w.toUnit⟩
+  have hfin : ∀ (rs rd : Raw K Unit) (u : World K Unit Q) (ev : List (Event K Unit Q)) (lk : List (Obj K Unit)),
+      WExt (fun _ => True) sys.w.toUnit u ev lk →
+      live (wU w) (sys.sets j) + live (wU w) (sys.sets i) + wsum (wU w) (createdOf ev) =
+        live (wU w) rs + live (wU w) rd + wsum (wU w) (droppedOf ev) + wsum (wU w) lk →
+      SBal w sys (extendFin sys i j rs rd u) 0 0 := by
+    intro rs rd u ev lk hx he
+    refine ⟨_, _, wext_fromUnit hx, ?_⟩
+    have := sysLive_extendFin w sys hi hj hij rs rd u
+    rw [created_fromUnit, dropped_fromUnit, wsum_fromUnit]
+    omega
+  unfold extendFrom
+  cases hloop : extendFromLoop E.toUnit ((sys.sets j).len + 1) (sys.sets j) ⟨sys.sets i, sys.w.toUnit⟩ with
+  | ub => trivial
+  | panic c x =>
+    rw [hloop] at hl
+    rcases hl with hc | ⟨ev, lk, hx, he⟩
+    · exact Or.inl hc
+    · exact Or.inr (hfin _ _ _ ev lk hx he)
+  | ok u x =>
+    rw [hloop] at hl
+    obtain ⟨ev, lk, hx, he⟩ := hl
+    have hd := dropAndRenew_cons (P := fun _ => True) (w := wU w) E.toUnit (hv_unit E w) ⟨x.1, x.2.w⟩
+    unfold ConsAt at hd
+    simp only
+    cases hdr : dropAndRenew E.toUnit ⟨x.1, x.2.w⟩ with
+    | ub => trivial
+    | ok u' s4 =>
+      rw [hdr] at hd
+      obtain ⟨ev2, lk2, hx2, he2⟩ := hd
+      refine hfin _ _ _ (ev ++ ev2) (lk ++ lk2) (hx.trans hx2) ?_
+      simp only [createdOf_append, droppedOf_append, wsum_append] at he he2 ⊢
+      omega
+    | panic c s4 =>
+      rw [hdr] at hd
+      rcases hd with ⟨hc, ha⟩ | ⟨q, hq, ev2, lk2, hx2, he2⟩
+      · exact Or.inl ⟨hc, fun hn => ha (hx.inj hn)⟩
+      · cases hq
+        refine Or.inr (hfin _ _ _ (ev ++ ev2) (lk ++ lk2) (hx.trans hx2) ?_)
+        simp only [createdOf_append, droppedOf_append, wsum_append] at he he2 ⊢
         omega
 
 
@@ -1175,6 +1337,15 @@ theorem stepCore_scons (hv : HV E w) (R : Render K V) {sys : Sys K V Q} (hs : Sy
         have := assignSet_scons E hs hd hb
         simp only [stepCore]
         exact (SCons.unit this .unit _ (by simp [Op.owned])).congr (by simp [Op.inObjs, SetOp.inKeys]) (fun _ => rfl)
+      | extend_from o =>
+        have ho : o < nRegs := by simp [Op.regsOk, touched] at hreg; exact hreg.2
+        refine ⟨[], rfl, ?_⟩
+        simp only [stepCore]
+        split
+        · exact (SBal.refl sys 0).of_eq (by simp [Op.inObjs, SetOp.inKeys]) (by simp [Op.owned])
+        · rename_i hne
+          have := extendFrom_scons E (w := w) (sys := sys) hr ho hne
+          exact (SCons.unit this .unit _ (by simp [Op.owned])).congr (by simp [Op.inObjs, SetOp.inKeys]) (fun _ => rfl)
       | serde dst =>
         have hd : dst < nRegs := by simp [Op.regsOk, touched] at hreg; exact hreg.2
         obtain ⟨hrep, _⟩ := (hs.2 reg).abs
